@@ -44,6 +44,9 @@ pub struct MemReader {
     pub base: Option<Uuid>,
     /// detect repeated inclusion of a file that is still open or was read before
     pub detect_reread: bool,
+    /// refuse every import request beyond this number (0 = unlimited): keeps an
+    /// unbounded include expansion finite so that it can be reported
+    pub import_limit: usize,
 }
 
 impl MemReader {
@@ -57,6 +60,7 @@ impl MemReader {
             requests: 0,
             base: None,
             detect_reread: false,
+            import_limit: 0,
         }
     }
     pub fn single(text: &str) -> MemReader {
@@ -78,6 +82,9 @@ impl FileReader for MemReader {
     ) -> Result<(Uuid, String), FileReaderError> {
         let k = self.requests;
         self.requests += 1;
+        if self.import_limit > 0 && self.requests > self.import_limit {
+            return Err(FileReaderError::IOErr("import limit of the harness reached".into()));
+        }
         match self.answers.get(k).copied().unwrap_or(Answer::Ok) {
             Answer::Ok => {}
             Answer::InvalidPath => return Err(FileReaderError::InvalidPath),
